@@ -71,13 +71,15 @@ def materialise(d, model):
         open(os.path.join(bind, 'out%d' % i), 'wb').write(out)
         open(os.path.join(bind, 'code%d' % i), 'w').write(str(code))
     script = '#!/bin/sh\nD=%s\nN=$(cat $D/counter 2>/dev/null || echo 0)\necho $((N+1)) > $D/counter\necho "$0 $@" >> $D/calls\n' \
-             '[ -f $D/out$N ] && cat $D/out$N\n[ -f $D/code$N ] && exit $(cat $D/code$N)\nexit 0\n' % bind
+             '[ -f $D/out$N ] && cat $D/out$N\n[ -f $D/code$N ] && [ "$(cat $D/code$N)" = None ] && kill -9 $$\n' \
+             '[ -f $D/code$N ] && exit $(cat $D/code$N)\nexit 0\n' % bind
     for c in ('c1', 'c2'):
         p = os.path.join(bind, c)
         open(p, 'w').write(script)
         os.chmod(p, 0o755)
     rec = os.path.join(bind, 'recsh')
-    open(rec, 'w').write('#!/bin/sh\nprintf \'%%s\\0\' "$2" >> %s/cmds\nexec /bin/sh -c "$2"\n' % bind)
+    # the recording shell passes the death of the command by a signal on as its own death by a signal (exit status None)
+    open(rec, 'w').write('#!/bin/sh\nprintf \'%%s\\0\' "$2" >> %s/cmds\n/bin/sh -c "$2"\nrc=$?\n[ $rc -gt 128 ] && kill -9 $$\nexit $rc\n' % bind)
     os.chmod(rec, 0o755)
     return root, work, bind, res
 
@@ -111,6 +113,36 @@ def run_native(d, model, mode_args=(), trailing=True, cleanup=True, threads=1):
         shutil.rmtree(root, ignore_errors=True)
     return {'rc': r.returncode, 'output': out, 'temp': tmp, 'stderr': r.stderr.decode('utf8', 'replace')[-400:], 'listing': listing,
             'root': root, 'cmds': cmds}
+
+
+def run_native_fault(d, model, op, path_suffix, nth, mode_args=(), trailing=True):
+    """run_native with one injected I/O failure (LD_PRELOAD shim): the nth `op` on the file whose path ends with path_suffix.
+    -> result dict with 'injected' (bool), or None when the shim cannot be built"""
+    so = build.faultinj_so()
+    if so is None:
+        return None
+    root, work, bind, res = materialise(d, model)
+    cli = cli_path()
+    e = dict(os.environ)
+    e['PATH'] = bind + ':' + e.get('PATH', '')
+    e.pop('TXTPP_FILE', None)
+    log = os.path.join(root, 'faultinj.log')
+    e.update({'LD_PRELOAD': so, 'FAULTINJ_PATH': path_suffix, 'FAULTINJ_OP': op, 'FAULTINJ_NTH': str(nth), 'FAULTINJ_LOG': log})
+    args = [cli] + list(mode_args) + ['-q', '-j', '1']
+    if 'clean' not in mode_args:
+        args += ['-s', os.path.join(bind, 'recsh') + ' -c']
+        if not trailing:
+            args.append('-n')
+    args.append('a.txt.txtpp')
+    r = subprocess.run(args, cwd=work, env=e, stdout=subprocess.PIPE, stderr=subprocess.PIPE, timeout=60)
+    out = tmp = None
+    if os.path.exists(os.path.join(work, 'a.txt')):
+        out = open(os.path.join(work, 'a.txt'), 'rb').read()
+    if os.path.exists(os.path.join(work, 't.tmp')):
+        tmp = open(os.path.join(work, 't.tmp'), 'rb').read()
+    injected = os.path.exists(log)
+    shutil.rmtree(root, ignore_errors=True)
+    return {'rc': r.returncode, 'output': out, 'temp': tmp, 'injected': injected, 'stderr': r.stderr.decode('utf8', 'replace')[:300]}
 
 
 def spec_concrete(d, model, trailing=True):
